@@ -1,7 +1,11 @@
 import GffProofs.Props.C08a
+import GffProofs.Props.C08b
 open GffProofs GffProofs.C08
 #print axioms split_join
 #print axioms unquote_quote
 #print axioms split_total_infer
 #print axioms split_total_provided
 #print axioms split_provided_empty_sep
+#print axioms reparse_print_gff3
+#print axioms print_gff3_no_breaks
+#print axioms reparse_print_gtf
